@@ -67,7 +67,7 @@ Definition occ_optval (c : ctxspec) (given : list nat) (o : occ) : bool :=
           takes_value a && a_optional a && plain s
           && negb (akind_eqb (a_kind a) KList)
           && negb (is_ctx_name cs s)
-          && match a_kind a with KInt => intlike s | _ => true end
+          && castable a s
           && negb (mem_nat (o_arg o) given)
           && opt_nat_eqb (first_missing c given) None
       | _, _ => false
@@ -83,7 +83,7 @@ Lemma given_track_value c given args o s :
   st_nm c given args -> given_track given args ->
   o_val o = VS s ->
   (forall a, nth_error (cx_args c) (o_arg o) = Some a ->
-     takes_value a = true /\ (a_kind a = KInt -> intlike s = true)) ->
+     takes_value a = true /\ castable a s = true) ->
   given_track (o_arg o :: given) (run_occ args o).
 Proof.
   intros St Gt Vo Ha. unfold run_occ.
@@ -143,7 +143,7 @@ Lemma simple_cases c given o :
   exists a, nth_error (cx_args c) (o_arg o) = Some a /\
     ((exists b, o_val o = VB b /\ (o_form o = FBare \/ o_form o = FInv) /\ takes_value a = false) \/
      (exists s, o_val o = VS s /\ (o_form o = FNext \/ o_form o = FEq) /\ takes_value a = true /\
-                (a_kind a = KInt -> intlike s = true))).
+                castable a s = true)).
 Proof.
   unfold occ_simple. destruct (nth_error (cx_args c) (o_arg o)) as [a|]; [|discriminate].
   intros H. apply andb_true_iff in H. destruct H as [_ H]. exists a. split; [reflexivity|].
@@ -153,9 +153,9 @@ Proof.
   - left. exists b. destruct b; [discriminate|]. rewrite !andb_true_iff in H. destruct H as [[K _] _].
     repeat split; auto. unfold takes_value. destruct (a_kind a); try discriminate. reflexivity.
   - right. exists s. rewrite !andb_true_iff in H. destruct H as [[[[Tv _] _] Hi] _].
-    repeat split; auto. intros K. now rewrite K in Hi.
+    repeat split; auto.
   - right. exists s. rewrite !andb_true_iff in H. destruct H as [[[[Tv _] _] Hi] _].
-    repeat split; auto. intros K. now rewrite K in Hi.
+    repeat split; auto.
 Qed.
 
 (** ** machine steps of one occurrence, any covered form *)
@@ -209,8 +209,7 @@ Proof.
   rewrite E1, E2. exists fl', got'. split; [exact S|]. split; [exact I'|].
   split; [exact St'|]. split; [now apply counters_ok_run_occ|].
   apply (given_track_value c given _ o s St Gt Vo).
-  intros a' Na'. rewrite Na in Na'. injection Na' as <-. split; [exact Tv|].
-  intros K. now rewrite K in Hint.
+  intros a' Na'. rewrite Na in Na'. injection Na' as <-. split; [exact Tv | exact Hint].
 Qed.
 
 Lemma one_steps_counter c given o done cur fl got :
@@ -268,8 +267,7 @@ Proof.
   rewrite E1, E2. exists fl, got. split; [exact S|]. split; [exact I'|].
   split; [now apply st_nm_of_pos|]. split; [now apply counters_ok_run_occ|].
   apply (given_track_value c given _ o s St Gt Vo).
-  intros a' Na'. rewrite Na in Na'. injection Na' as <-. split; [exact Tv|].
-  intros K. now rewrite K in Hint.
+  intros a' Na'. rewrite Na in Na'. injection Na' as <-. split; [exact Tv | exact Hint].
 Qed.
 Lemma one_steps_optval c given o done cur fl got :
   guard_w c = true -> occ_optval c given o = true ->
@@ -297,7 +295,7 @@ Proof.
   { rewrite find_flag_args, Sh. eapply find_flag_spec_unique; eauto. }
   assert (Common : forall s, o_val o = VS s ->
             takes_value a && a_optional a && plain s && negb (akind_eqb (a_kind a) KList)
-            && negb (is_ctx_name cs s) && match a_kind a with KInt => intlike s | _ => true end
+            && negb (is_ctx_name cs s) && castable a s
             && negb (mem_nat (o_arg o) given) && opt_nat_eqb (first_missing c given) None = true ->
             (is_val_form (o_form o) = true) ->
             (forall r', set_value r (IStr s) true = Ok r' ->
@@ -314,7 +312,7 @@ Proof.
     destruct H as [[[[[[[Tv Op] Pl] Nl] Nc] Hint] Ng] Fm].
     assert (Tv' : takes_value (r_spec r) = true) by (rewrite Sr; exact Tv).
     destruct (set_value_str r s Tv') as [r' [SV [Sp [Rw [Nnone Hl]]]]].
-    { intros K. rewrite Sr in K. now rewrite K in Hint. }
+    { rewrite Sr. exact Hint. }
     { intros K. eapply (sn_list _ _ _ St); eauto. }
     assert (E1 : run_one (rc_args cur) o = upd_nth (o_arg o) r' (rc_args cur)).
     { unfold run_one, run_occ, occ_input. now rewrite Vo, Nr, SV. }
@@ -334,7 +332,7 @@ Proof.
   (* the two spellings *)
   assert (Pend : forall s, o_val o = VS s ->
             takes_value a && a_optional a && plain s && negb (akind_eqb (a_kind a) KList)
-            && negb (is_ctx_name cs s) && match a_kind a with KInt => intlike s | _ => true end
+            && negb (is_ctx_name cs s) && castable a s
             && negb (mem_nat (o_arg o) given) && opt_nat_eqb (first_missing c given) None = true ->
             forall r', set_value r (IStr s) true = Ok r' ->
             step p (MS i0 done cur (Some (S (List.length done), o_arg o)) false) s
